@@ -343,6 +343,8 @@ def execute(mod, tier, seed, replay=None, repo="/repo"):
 
     # 1. regenerate + prove
     run.regen()
+    if hasattr(mod, "pregen"):
+        mod.pregen(run)          # property-specific regeneration from the source (before make)
     coq_ok = run.coq_make(mod.COQ_TARGETS)
     run.source_scan()
     if coq_ok:
